@@ -540,7 +540,16 @@ func (cs *ChainState) PruneOldData(stateRoot types.StateRoot, headerHash types.H
 	}
 	cutoff := len(cs.persistedEntries) - fuzzenv.FuzzPersistentRetainBlocks
 	fuzzMemoryOnly := fuzzenv.Enabled()
+	// A block that was committed again later (a re-org back to it) has a second,
+	// newer entry: its data is still inside the retained window and must stay.
+	retained := make(map[types.HeaderHash]bool, fuzzenv.FuzzPersistentRetainBlocks)
+	for _, kept := range cs.persistedEntries[cutoff:] {
+		retained[kept.headerHash] = true
+	}
 	for _, old := range cs.persistedEntries[:cutoff] {
+		if retained[old.headerHash] {
+			continue
+		}
 		cs.repo.DeleteStateData(cs.repo.Database(), old.stateRoot)
 		cs.repo.DeleteBlock(cs.repo.Database(), old.headerHash, old.slot)
 		if !fuzzMemoryOnly {
